@@ -325,6 +325,9 @@ class Gen:
                 self.emit('int-to-long', v, pi[0])
             else:
                 self.const_long(v)
+        # the parameter registers themselves are ordinary variables of the method body (compilers assign to parameters)
+        self.ints = self.ints + [r for r in pi if r < 16]
+        self.longs = self.longs + [r for r in pj if r < 15]
 
     def const_int(self, v):
         r = self.rnd.random()
@@ -464,7 +467,7 @@ class Gen:
             head = self.label()
             saved = self.ints
             self.emit('and-int/lit8', 3, 3, 3)
-            self.ints = [0, 1, 2]
+            self.ints = [r for r in saved if r != 3]
             self.emit('label', head)
             self.depth += 1
             self.in_loop = True
@@ -480,7 +483,7 @@ class Gen:
             saved = self.ints
             self.emit('and-int/lit8', 2, 2, 3)
             self.emit('const/4', 3, 0)
-            self.ints = [0, 1]
+            self.ints = [r for r in saved if r not in (2, 3)]
             self.emit('label', head)
             self.emit('if-ge', 3, 2, end)
             self.depth += 1
